@@ -89,8 +89,8 @@ example : ∃ f ∈ functions, ∃ r, cmdFieldFor f.key = some r ∧ r.idx ≥ 2
     decided on every run by the harness (every non-empty subset of the absent argument positions of every
     shape passed as nil pointers of the concrete selectors / elements type, compared with the untyped-nil
     build and with the model, `c18_builder_nil_forms_agree`; `util.IsNil` itself on every form of nil), for
-    whichever functions the builders are made of. The list `Spine.Generated.isNilCallers` is still
-    regenerated, as information only. -/
+    whichever functions the builders are made of. The callers are still listed by the translator, in its
+    summary line (evidence notes), as information only. -/
 
 /-! ## G2 — selector and elements tags -/
 
